@@ -28,7 +28,11 @@ Given(el, key) == CASE key = "prefix" -> el.px [] key = "suffix" -> el.sx [] key
                     [] key = "dirname" -> el.dn [] key = "fileext" -> el.fe
 \* the formatted argument of element i for key (var: the context has the key the format string needs)
 Tok(el, i, key) == <<Letter(key), i>>
+\* where the context key "var" needed by some format strings comes from: nowhere, the run-time context (value V),
+\* the static context given by _set_context (value SV), or both - "The run-time context has higher precedence"
+VarTok(c) == IF c.var \in {"run", "both"} THEN <<"V", 0>> ELSE <<"SV", 0>>
 Arg(el, i, key) == <<Tok(el, i, key)>> \o (IF el.nk THEN <<<<"V", 0>>>> ELSE <<>>)
+ArgV(el, i, key, vt) == <<Tok(el, i, key)>> \o (IF el.nk THEN <<vt>> ELSE <<>>)
 
 Valid(el) == /\ (el.fn => ~el.px /\ ~el.sx)
              /\ (el.fn \/ el.dn \/ el.fe \/ el.px \/ el.sx)
@@ -45,31 +49,33 @@ RECURSIVE Chains(_)
 Chains(m) == IF m = 0 THEN {<<>>}
              ELSE LET P == Chains(m - 1) IN P \cup {Append(c, e) : c \in {x \in P : Len(x) = m - 1}, e \in Vocabulary}
 \* initial context: is "var" there; is there already a file name; are there pending affixes
-Inits == [var : BOOLEAN, fn0 : BOOLEAN, ax0 : BOOLEAN]
+\* ax0: pending affixes in the incoming context: none, some text, or present but EMPTY strings
+Inits == [var : {"none", "run", "static", "both"}, fn0 : BOOLEAN, ax0 : {"none", "some", "empty"}]
+Affix0(c0, letter) == CASE c0.ax0 = "none" -> None [] c0.ax0 = "some" -> Some(<<<<letter, 0>>>>) [] c0.ax0 = "empty" -> Some(<<>>)
 Out0(c0) == [filename |-> IF c0.fn0 THEN Some(<<<<"F", 0>>>>) ELSE None, dirname |-> None, fileext |-> None,
-             prefix |-> IF c0.ax0 THEN Some(<<<<"P", 0>>>>) ELSE None,
-             suffix |-> IF c0.ax0 THEN Some(<<<<"S", 0>>>>) ELSE None]
+             prefix |-> Affix0(c0, "P"), suffix |-> Affix0(c0, "S")]
 
 (***************************************************************************)
 (* Declarative: one element, from the docstring of __call__.               *)
 (***************************************************************************)
-Apply(el, i, o, var) ==
-  LET fmt == ~el.nk \/ var     \* "If current context can't be formatted ... a key is not updated"
+Apply(el, i, o, c) ==
+  LET fmt == ~el.nk \/ c.var # "none"     \* "If current context can't be formatted ... a key is not updated"
+      vt == VarTok(c)                     \* static and run-time context: the run-time value wins
       \* prefix is prepended before the existing prefix, suffix appended after the existing suffix,
       \* unless overwrite; they always update their keys if they could be formatted
-      px == IF el.px /\ fmt THEN Some(Arg(el, i, "prefix") \o (IF el.ow THEN <<>> ELSE o.prefix.v)) ELSE o.prefix
-      sx == IF el.sx /\ fmt THEN Some((IF el.ow THEN <<>> ELSE o.suffix.v) \o Arg(el, i, "suffix")) ELSE o.suffix
+      px == IF el.px /\ fmt THEN Some(ArgV(el, i, "prefix", vt) \o (IF el.ow THEN <<>> ELSE o.prefix.v)) ELSE o.prefix
+      sx == IF el.sx /\ fmt THEN Some((IF el.ow THEN <<>> ELSE o.suffix.v) \o ArgV(el, i, "suffix", vt)) ELSE o.suffix
       \* filename / dirname / fileext set the keys if they didn't exist (or overwrite)
       sets(key) == Given(el, key) /\ fmt /\ (~o[key].has \/ el.ow)
       \* a created file name takes the pending prefix and suffix, which are then removed
-      fn == IF sets("filename") THEN Some(o.prefix.v \o Arg(el, i, "filename") \o o.suffix.v) ELSE o.filename
+      fn == IF sets("filename") THEN Some(o.prefix.v \o ArgV(el, i, "filename", vt) \o o.suffix.v) ELSE o.filename
   IN [filename |-> fn,
-      dirname |-> IF sets("dirname") THEN Some(Arg(el, i, "dirname")) ELSE o.dirname,
-      fileext |-> IF sets("fileext") THEN Some(Arg(el, i, "fileext")) ELSE o.fileext,
+      dirname |-> IF sets("dirname") THEN Some(ArgV(el, i, "dirname", vt)) ELSE o.dirname,
+      fileext |-> IF sets("fileext") THEN Some(ArgV(el, i, "fileext", vt)) ELSE o.fileext,
       prefix |-> IF sets("filename") /\ o.prefix.v # <<>> THEN None ELSE px,
       suffix |-> IF sets("filename") /\ o.suffix.v # <<>> THEN None ELSE sx]
 RECURSIVE ChainSem(_, _, _, _)
-ChainSem(ch, i, o, var) == IF i > Len(ch) THEN o ELSE ChainSem(ch, i + 1, Apply(ch[i], i, o, var), var)
+ChainSem(ch, i, o, c) == IF i > Len(ch) THEN o ELSE ChainSem(ch, i + 1, Apply(ch[i], i, o, c), c)
 
 (***************************************************************************)
 (* Operational: the loop over self._methods.                               *)
@@ -81,19 +87,21 @@ Init == /\ chain \in (Chains(MaxLen) \ {<<>>}) /\ c0 \in Inits
 Step == /\ i <= Len(chain)
         /\ LET el == chain[i]  key == Keys[k]
                skipExisting == key \in {"filename", "fileext", "dirname"} /\ out[key].has /\ ~el.ow
-               fmt == ~el.nk \/ c0.var
+               \* full_context = deepcopy(static context); full_context.update(run-time context)
+               inRun == c0.var \in {"run", "both"}
+               inStatic == c0.var \in {"static", "both"}
+               fmt == ~el.nk \/ inRun \/ inStatic
+               arg == <<Tok(el, i, key)>> \o (IF ~el.nk THEN <<>> ELSE IF inRun THEN <<<<"V", 0>>>> ELSE <<<<"SV", 0>>>>)
            IN IF ~Given(el, key) \/ skipExisting \/ ~fmt THEN UNCHANGED out
               ELSE IF key = "prefix" THEN
-                     out' = [out EXCEPT !.prefix = Some(IF out.prefix.v # <<>> /\ ~el.ow THEN Arg(el, i, key) \o out.prefix.v
-                                                        ELSE Arg(el, i, key))]
+                     out' = [out EXCEPT !.prefix = Some(IF out.prefix.v # <<>> /\ ~el.ow THEN arg \o out.prefix.v ELSE arg)]
               ELSE IF key = "suffix" THEN
-                     out' = [out EXCEPT !.suffix = Some(IF out.suffix.v # <<>> /\ ~el.ow THEN out.suffix.v \o Arg(el, i, key)
-                                                        ELSE Arg(el, i, key))]
+                     out' = [out EXCEPT !.suffix = Some(IF out.suffix.v # <<>> /\ ~el.ow THEN out.suffix.v \o arg ELSE arg)]
               ELSE IF key = "filename" THEN
-                     out' = [out EXCEPT !.filename = Some(out.prefix.v \o Arg(el, i, key) \o out.suffix.v),
+                     out' = [out EXCEPT !.filename = Some(out.prefix.v \o arg \o out.suffix.v),
                                         !.prefix = IF out.prefix.v # <<>> THEN None ELSE @,
                                         !.suffix = IF out.suffix.v # <<>> THEN None ELSE @]
-              ELSE out' = [out EXCEPT ![key] = Some(Arg(el, i, key))]
+              ELSE out' = [out EXCEPT ![key] = Some(arg)]
         /\ IF k < 5 THEN k' = k + 1 /\ UNCHANGED <<i, before>>
            ELSE k' = 1 /\ i' = i + 1 /\ before' = out'
         /\ UNCHANGED <<chain, c0>>
@@ -103,7 +111,10 @@ Done == i > Len(chain)
 (***************************************************************************)
 (* Properties.                                                             *)
 (***************************************************************************)
-OpEqDen == Done => out = ChainSem(chain, 1, Out0(c0), c0.var)
+OpEqDen == Done => out = ChainSem(chain, 1, Out0(c0), c0)
+\* the run-time context has precedence over the static one: no static value in a result when a run-time value exists
+RunTimeWins == c0.var = "both" => \A key \in {"filename", "dirname", "fileext", "prefix", "suffix"} :
+                 \A j \in 1..Len(out[key].v) : out[key].v[j][1] # "SV"
 \* an existing name (directory, extension) is never replaced unless overwrite is set
 NameStable == [][\A key \in {"filename", "dirname", "fileext"} :
                    (i <= Len(chain) /\ out[key].has /\ ~chain[i].ow) => out'[key] = out[key]]_vars
@@ -111,10 +122,10 @@ NameStable == [][\A key \in {"filename", "dirname", "fileext"} :
 \* into a name are no longer pending
 Occ(s, x) == Cardinality({j \in 1..Len(s) : s[j] = x})
 \* (the value of "var" may legitimately occur in several arguments)
-Once(s) == \A j \in 1..Len(s) : s[j][1] # "V" => Occ(s, s[j]) = 1
+Once(s) == \A j \in 1..Len(s) : s[j][1] \notin {"V", "SV"} => Occ(s, s[j]) = 1
 AffixOnce == out.filename.has => Once(out.filename.v)
 AffixConsumed == [][(i <= Len(chain) /\ k = 3 /\ out'.filename # out.filename) =>
-                      /\ out'.filename.v = out.prefix.v \o Arg(chain[i], i, "filename") \o out.suffix.v
+                      /\ out'.filename.v = out.prefix.v \o ArgV(chain[i], i, "filename", VarTok(c0)) \o out.suffix.v
                       /\ (out.prefix.v # <<>> => ~out'.prefix.has) /\ (out.suffix.v # <<>> => ~out'.suffix.has)]_vars
 \* every pending affix contributed so far is still pending exactly once
 PendingOnce == Once(out.prefix.v) /\ Once(out.suffix.v)
